@@ -283,6 +283,30 @@ CHECKS = {
         "non-keyword identifiers; class_origin/propagated not compared; "
         "open flavors may come back as default or declaration flavor",
         "DESIGN.md 4-C08", "moftext"),
+    "C03": (
+        "DSP0203 DTD turned into a TLA+ table (generated from the DTD file and "
+        "compared on every run) with a derivative matcher checked by TLC against "
+        "a declarative one; code-shaped transcription of the request assembly of "
+        "all 41 operation methods model-checked for DTD validity and header "
+        "agreement; documents captured from the real code (requests at a "
+        "transport adapter, tocimxmlstr(), listener responses) parsed with expat "
+        "and judged by TLC",
+        "TLC proves that the derivative matcher equals the declarative content-"
+        "model semantics for every DSP0203 element and all child sequences up to "
+        "length 4 (5), and that the transcribed _imethodcall/_methodcall/"
+        "_iexportcall + tocimxml() assembly yields a DTD-valid document with "
+        "agreeing CIMMethod/CIMObject headers for every operation x argument-"
+        "shape case with up to two dimensions off base (11 452 cases; the design "
+        "as pinned and three regressions are refuted); every case is run through "
+        "the real operation method and the captured body+headers must be valid, "
+        "agree, and equal the transcription; seeded random objects of every "
+        "kind, random calls with unusual names, characters XML 1.0 cannot carry "
+        "and the real listener's responses are judged the same way; lxml's DTD "
+        "validator is cross-checked on the same documents.",
+        "validity on the expat element tree (no DOCTYPE); characters per class; "
+        "case space K<=2 with small object content; CIMObject compared by "
+        "namespace/class/key names, targets without URI delimiters",
+        "DESIGN.md 4-C03", "wireops"),
     "C10": (
         "TLA+ reference keyed map with set-valued status codes (RepoCore); "
         "code-shaped validation-order + dict/heap machine refinement in TLC; "
